@@ -410,79 +410,153 @@ class Budget(Exception):
     pass
 
 
-def fm_unsat(constraints, budget=20000):
-    """Fourier-Motzkin over the rationals with integer tightening of the constants
-    (gcd normalisation).  True only if certainly unsatisfiable."""
+_ATOM_ID = {}
+_FM_CACHE = {}
+
+
+def _aid(a):
+    i = _ATOM_ID.get(a)
+    if i is None:
+        i = len(_ATOM_ID) + 1
+        _ATOM_ID[a] = i
+    return i
+
+
+def fm_unsat(constraints, budget=40000):
+    """Fourier-Motzkin over the rationals with integer tightening of the constants (gcd normalisation),
+    equality substitution and dominance pruning.  True only if certainly unsatisfiable."""
     import math
-    cs = set()
+    # to integer-indexed, deduplicated form:  vec (tuple of (id, coef)) -> max const   (sum + const <= 0)
+    best = {}
     for items, const in constraints:
         if not items:
             if const > 0:
                 return True
             continue
-        cs.add((items, const))
+        vec = tuple(sorted((_aid(v), c) for v, c in items))
+        if vec not in best or best[vec] < const:
+            best[vec] = const
+    key = frozenset(best.items())
+    r = _FM_CACHE.get(key)
+    if r is not None:
+        return r
+    r = _fm_core(best, budget, math)
+    if len(_FM_CACHE) > 200000:
+        _FM_CACHE.clear()
+    _FM_CACHE[key] = r
+    return r
 
-    def normalise(d, k):
-        g = 0
-        for c in d.values():
-            g = math.gcd(g, abs(c))
-        if g > 1:
-            d = {v: c // g for v, c in d.items()}
-            # sum*g + k <= 0  ->  sum <= floor(-k/g)  ->  sum + ceil(k/g) <= 0
-            k = -((-k) // g)
-        return _norm(d, k)
 
-    cs = set(normalise(dict(i), k) for i, k in cs)
+def _fm_norm(d, k, math):
+    g = 0
+    for c in d.values():
+        g = math.gcd(g, abs(c))
+    if g > 1:
+        d = {v: c // g for v, c in d.items()}
+        k = -((-k) // g)
+    return tuple(sorted(d.items())), k
+
+
+def _fm_core(best, budget, math):
+    cs = {}
+    for vec, k in best.items():
+        v2, k2 = _fm_norm(dict(vec), k, math)
+        if v2 not in cs or cs[v2] < k2:
+            cs[v2] = k2
     work = 0
-    while True:
-        # trivial checks
-        new = set()
-        for items, const in cs:
-            if not items:
-                if const > 0:
+    # equality substitution: vec and -vec both present with k + k' == 0
+    changed = True
+    while changed:
+        changed = False
+        for vec, k in list(cs.items()):
+            neg = tuple((v, -c) for v, c in vec)
+            if neg in cs:
+                if k + cs[neg] > 0:
                     return True
-            else:
-                new.add((items, const))
-        cs = new
+                if k + cs[neg] == 0:
+                    # equality  sum(vec) + k == 0 ; pick a unit-coefficient variable to eliminate
+                    pv = None
+                    for v, c in vec:
+                        if abs(c) == 1:
+                            pv = (v, c)
+                            break
+                    if pv is None:
+                        continue
+                    v0, c0 = pv
+                    # v0 = -(rest + k)/c0
+                    new = {}
+                    for vec2, k2 in cs.items():
+                        if vec2 == vec or vec2 == neg:
+                            continue
+                        d2 = dict(vec2)
+                        if v0 not in d2:
+                            if vec2 not in new or new[vec2] < k2:
+                                new[vec2] = k2
+                            continue
+                        a = d2.pop(v0)
+                        # add  (-a/c0) * (vec + k) : since c0 = +-1, factor f = -a*c0
+                        f = -a * c0
+                        for v, c in vec:
+                            if v == v0:
+                                continue
+                            d2[v] = d2.get(v, 0) + f * c
+                        k3 = k2 + f * k
+                        d2 = {v: c for v, c in d2.items() if c != 0}
+                        if not d2:
+                            if k3 > 0:
+                                return True
+                            continue
+                        nv, nk = _fm_norm(d2, k3, math)
+                        if nv not in new or new[nv] < nk:
+                            new[nv] = nk
+                    cs = new
+                    changed = True
+                    break
+    while True:
         if not cs:
             return False
-        # choose variable minimising pos*neg
         occ = {}
-        for items, const in cs:
-            for v, c in items:
+        for vec in cs:
+            for v, c in vec:
                 p, n = occ.get(v, (0, 0))
                 if c > 0:
                     occ[v] = (p + 1, n)
                 else:
                     occ[v] = (p, n + 1)
-        v = min(occ, key=lambda x: (occ[x][0] * occ[x][1], repr(x)))
-        pos, neg, rest = [], [], set()
-        for items, const in cs:
-            d = dict(items)
+        v = min(occ, key=lambda x: (occ[x][0] * occ[x][1], x))
+        pos, neg, rest = [], [], {}
+        for vec, k in cs.items():
+            d = dict(vec)
             if v in d:
-                (pos if d[v] > 0 else neg).append((d, const))
+                (pos if d[v] > 0 else neg).append((d, k))
             else:
-                rest.add((items, const))
+                rest[vec] = k
         for dp, kp in pos:
+            cp = dp[v]
             for dn, kn in neg:
                 work += 1
                 if work > budget:
                     return False
-                cp, cn = dp[v], -dn[v]
+                cn = -dn[v]
                 r = {}
                 for a, c in dp.items():
                     if a != v:
-                        r[a] = r.get(a, 0) + c * cn
+                        r[a] = c * cn
                 for a, c in dn.items():
                     if a != v:
-                        r[a] = r.get(a, 0) + c * cp
-                r = {a: c for a, c in r.items() if c != 0}
+                        x = r.get(a, 0) + c * cp
+                        if x:
+                            r[a] = x
+                        elif a in r:
+                            del r[a]
                 k = kp * cn + kn * cp
                 if not r:
                     if k > 0:
                         return True
                     continue
-                rest.add(normalise(r, k))
+                nv, nk = _fm_norm(r, k, math)
+                if nv not in rest or rest[nv] < nk:
+                    rest[nv] = nk
         cs = rest
 
 
@@ -762,7 +836,7 @@ def subst(t, m):
     k = t[0]
     if k in ('int', 'bool', 'var'):
         return t
-    r = tuple(subst(x, m) if isinstance(x, tuple) else x for x in t)
+    r = tuple((tuple(subst(y, m) if isinstance(y, tuple) else y for y in x) if (isinstance(x, tuple) and x and isinstance(x[0], tuple)) else subst(x, m)) if isinstance(x, tuple) else x for x in t)
     if r != t:
         r = rebuild(r)
         if t in TYPES and isinstance(r, tuple) and r[0] not in ('int', 'bool'):
@@ -797,9 +871,16 @@ def subterms(t):
     yield t
     if isinstance(t, tuple) and t and t[0] not in ('int', 'bool', 'var'):
         for x in t[1:]:
-            if isinstance(x, tuple):
-                for y in subterms(x):
-                    yield y
+            if isinstance(x, tuple) and x:
+                if isinstance(x[0], tuple):
+                    # a tuple of terms (call arguments, aggregate fields)
+                    for y in x:
+                        if isinstance(y, tuple) and y:
+                            for z in subterms(y):
+                                yield z
+                else:
+                    for y in subterms(x):
+                        yield y
 
 
 def show(t):
